@@ -1,108 +1,239 @@
 (* C04 - generated C/C++ codecs are memory-safe, total and free of prior-state influence.
-   Statements only; proofs in Codec/WalkerSafeThm.v (model: Codec/WalkerSafe.v), primitive level in Prims/CPrimsThm.v (C14).
-   The booleans tpl_* are read from the templates of the working tree by tools/translators/gen_c04.py on every run. *)
-From Verif Require Import Wire Walker WalkerSafe WalkerSafeThm Gen_C04 Gen_C01 CPrims CPrimsThm.
+   Statements only.  Models: Codec/WalkerSafe.v (C walker with access log, destination object with prior contents),
+   Codec/WalkerSafeCpp.v (C++: the same walker under cpp_cfg, vector statement interpreter, C++14 union emulation).
+   Proofs: Codec/WalkerSafeThm.v, WalkerSafeCppThm.v, WalkerSafePrims.v (log entries against the partial semantics of CPrims/CppPrims).
+   tpl_* are read from the templates of the working tree by tools/translators/gen_c04.py on every run: three state booleans of the C
+   rendering, and STATEMENT SEQUENCES (C++ vector statements, union constructor / emplace / destroy_current, check-vs-access events).
+   Refutations about renderings that are no longer in /repo: coq/theories/History/C04_history.v. *)
+From Verif Require Import Wire Walker WalkerSafe WalkerSafeThm WalkerSafeCpp WalkerSafeCppThm WalkerSafePrims Gen_C04 Gen_C01
+                          CPrims CPrimsThm CppPrims CppPrimsThm.
 Local Open Scope nat_scope.
 
-(* the structural facts the model relies on hold of the templates as they are now: every check textually precedes the accesses it
-   protects, the length checks use the DSDL capacity literal, nunavutGetBits zero-fills from floor(sat/8) *)
-Theorem c04_template_order : tpl_order_facts = true.
-Proof. reflexivity. Qed.
-Print Assumptions c04_template_order.
+(* ---------------------------------------------------------------------------------------------------------------------------------
+   The rendering of the working tree.  `opt` = --enable-override-variable-array-capacity.  Without the option the storage capacity
+   IS the DSDL capacity, the up-front test is always compiled in and no guard is emitted; with it the user may reduce capacities
+   (`ov`), which compiles the up-front test out (`upf`).  Endianness paths and the static alignment annotation are arbitrary.
+   --------------------------------------------------------------------------------------------------------------------------------- *)
+Definition tree_cfg (opt : bool) (ov : ty -> nat -> nat) (upf le : bool) (al : nat -> bool) : cfg :=
+  {| ov := if opt then ov else (fun _ n => n); up_front := if opt then upf else true; little := le; al := al;
+     len_chk_storage := opt && tpl_c_len_check_storage; guarded := opt && tpl_c_ser_guarded; ptr_clamp := tpl_c_des_ptr_clamped;
+     bulk_on := true |}.
 
-(* the rendering of the working tree: the three state booleans are read from the templates, everything else is universally
-   quantified (storage capacities, whether the up-front check is compiled in, endianness paths, the static alignment annotation) *)
-Definition tree_cfg (ov : ty -> nat -> nat) (upf le : bool) (al : nat -> bool) : cfg :=
-  {| ov := ov; up_front := upf; little := le; al := al;
-     len_chk_storage := tpl_c_len_check_storage; guarded := tpl_c_ser_guarded; ptr_clamp := tpl_c_des_ptr_clamped |}.
+(* ---- in every scanned macro the first event is the check: all accesses come after it (decided here, not by the scanner) ---- *)
+Theorem c04_checks_precede_accesses :
+  forallb check_first [tpl_c_events_ser_impl; tpl_c_events_ser_vla; tpl_c_events_des_vla; tpl_c_events_des_composite] = true
+  /\ tpl_order_facts = true.
+Proof. split; reflexivity. Qed.
+Print Assumptions c04_checks_precede_accesses.
 
-(* ---- deserialization: every access in bounds; `cap_sound` = the length checks use the storage capacity, or the storage is not
-   smaller than the DSDL capacity ---- *)
+(* ================================================  C: deserialization  ================================================ *)
 Theorem c04_des_in_bounds : forall c, cap_sound c -> forall capB t prior buf,
   wf_ty t = true -> length buf = 8 * capB ->
   forallb (acc_ok capB) (snd (walk_des_safe c t prior buf)) = true.
 Proof. exact des_in_bounds. Qed.
 Print Assumptions c04_des_in_bounds.
 
-(* about the tree as it is: on a tree whose length checks use the storage capacity the premise is `true = true` for EVERY storage
-   capacity function; on the older shape it asks for unreduced capacities (the excluded trigger of F-C-OVR-CAP) *)
-Theorem c04_tree_des_in_bounds : forall ov upf le al,
-  (tpl_c_len_check_storage = true \/ (forall (e : ty) n, n <= ov e n)) -> forall capB t prior buf,
+(* the default build: no premise at all *)
+Theorem c04_default_des_in_bounds : forall ov upf le al capB t prior buf,
   wf_ty t = true -> length buf = 8 * capB ->
-  forallb (acc_ok capB) (snd (walk_des_safe (tree_cfg ov upf le al) t prior buf)) = true.
-Proof. intros ov upf le al H. exact (des_in_bounds (tree_cfg ov upf le al) H). Qed.
-Print Assumptions c04_tree_des_in_bounds.
+  forallb (acc_ok capB) (snd (walk_des_safe (tree_cfg false ov upf le al) t prior buf)) = true
+  /\ forallb (ptr_ok capB) (snd (walk_des_safe (tree_cfg false ov upf le al) t prior buf)) = true.
+Proof.
+  intros ov upf le al capB t prior buf Hwf Hl.
+  assert (Hc : cap_sound (tree_cfg false ov upf le al)) by (right; intros e n; apply le_n).
+  split; [exact (des_in_bounds _ Hc capB t prior buf Hwf Hl) | exact (des_ptr_in_bounds _ Hc capB t prior buf eq_refl Hwf Hl)].
+Qed.
+Print Assumptions c04_default_des_in_bounds.
 
-(* ---- every pointer handed to a nested deserializer lies in [buffer, buffer + size] (full statement since 9be3c74) ---- *)
-Theorem c04_des_ptr_in_bounds : forall ov upf le al,
-  (tpl_c_len_check_storage = true \/ (forall (e : ty) n, n <= ov e n)) -> forall capB t prior buf,
+(* the build with the option: every storage capacity function, as long as the tree checks lengths against the storage *)
+Theorem c04_option_des_in_bounds : forall ov upf le al capB t prior buf,
   wf_ty t = true -> length buf = 8 * capB ->
-  forallb (ptr_ok capB) (snd (walk_des_safe (tree_cfg ov upf le al) t prior buf)) = true.
-Proof. intros ov upf le al H capB t prior buf. exact (des_ptr_in_bounds (tree_cfg ov upf le al) H capB t prior buf eq_refl). Qed.
-Print Assumptions c04_des_ptr_in_bounds.
+  forallb (acc_ok capB) (snd (walk_des_safe (tree_cfg true ov upf le al) t prior buf)) = true
+  /\ forallb (ptr_ok capB) (snd (walk_des_safe (tree_cfg true ov upf le al) t prior buf)) = true.
+Proof.
+  intros ov upf le al capB t prior buf Hwf Hl.
+  assert (Hc : cap_sound (tree_cfg true ov upf le al)) by (left; reflexivity).
+  split; [exact (des_in_bounds _ Hc capB t prior buf Hwf Hl) | exact (des_ptr_in_bounds _ Hc capB t prior buf eq_refl Hwf Hl)].
+Qed.
+Print Assumptions c04_option_des_in_bounds.
 
+(* the outcome (value, consumed size, error) does not depend on the destination's prior contents: every rendering *)
+Theorem c04_des_prior_indep : forall c t prior1 prior2 buf,
+  obs_res t (fst (walk_des_safe c t prior1 buf)) = obs_res t (fst (walk_des_safe c t prior2 buf)).
+Proof. exact des_prior_indep. Qed.
+Print Assumptions c04_des_prior_indep.
 
-(* ---- serialization: every access in bounds, whatever the object holds; a buffer that passes the up-front test is never TOO_SMALL later ---- *)
+(* ... and it is that of the prior-free walker of Codec/Walker.v whenever the length checks are the specification's *)
+Theorem c04_des_obs_eq_walker : forall c, (forall e n, chk_cap c e n = n) -> forall t prior buf,
+  obs_res t (fst (walk_des_safe c t prior buf)) = walk_des ref_prims t buf.
+Proof. exact des_obs_eq_walker. Qed.
+Print Assumptions c04_des_obs_eq_walker.
+
+(* only BAD_ARRAY_LENGTH / BAD_UNION_TAG / BAD_DELIMITER_HEADER can be reported (the model has no other error to give: the content of
+   this theorem is that TOO_SMALL is not among them and that no internal `shape` error exists; termination is structural) *)
+Theorem c04_des_errors : forall c t prior buf,
+  (exists v k, fst (walk_des_safe c t prior buf) = Ok (v, k)) \/
+  (exists e, fst (walk_des_safe c t prior buf) = Err e /\ des_err_documented e = true).
+Proof. exact des_total. Qed.
+Print Assumptions c04_des_errors.
+
+(* ================================================  C: serialization  ================================================ *)
+(* a serialization refused for lack of space wrote nothing *)
+Theorem c04_too_small_no_write : forall c t o capB,
+  up_front c = true -> 8 * capB < bmax t -> walk_ser_safe c t o capB = (Err ETooSmall, []).
+Proof. exact too_small_no_write. Qed.
+Print Assumptions c04_too_small_no_write.
+
+(* once the buffer passes the up-front test: every access in bounds whatever the object holds, and TOO_SMALL is never reported later *)
 Theorem c04_ser_in_bounds : forall c, cap_sound c -> forall t o capB,
   wf_ty t = true -> align t = 8 -> bmax t <= 8 * capB ->
   forallb (acc_ok capB) (snd (walk_ser_safe c t o capB)) = true /\ fst (walk_ser_safe c t o capB) <> Err ETooSmall.
 Proof. exact ser_in_bounds. Qed.
 Print Assumptions c04_ser_in_bounds.
 
-(* the guarded rendering (C04_ovrcap_fix.patch) needs neither the up-front check nor unreduced capacities *)
-Theorem c04_ser_in_bounds_guarded : forall c t o capB, guarded c = true -> len_chk_storage c = true ->
-  forallb (acc_ok capB) (snd (walk_ser_safe c t o capB)) = true.
-Proof. exact ser_in_bounds_guarded. Qed.
-Print Assumptions c04_ser_in_bounds_guarded.
-
-(* about the tree as it is: in bounds if the tree is guarded (then for every buffer size, every storage capacity, check compiled in
-   or not), otherwise under the premises of c04_ser_in_bounds *)
-Theorem c04_tree_ser_in_bounds : forall ov upf le al t o capB,
-  (tpl_c_ser_guarded && tpl_c_len_check_storage = true \/
-   ((tpl_c_len_check_storage = true \/ (forall (e : ty) n, n <= ov e n)) /\ wf_ty t = true /\ align t = 8 /\ bmax t <= 8 * capB)) ->
-  forallb (acc_ok capB) (snd (walk_ser_safe (tree_cfg ov upf le al) t o capB)) = true.
+(* the default build, from the up-front capacity test alone: EVERY buffer size, every object content *)
+Theorem c04_default_ser_in_bounds : forall ov upf le al t o capB,
+  wf_ty t = true -> align t = 8 ->
+  forallb (acc_ok capB) (snd (walk_ser_safe (tree_cfg false ov upf le al) t o capB)) = true.
 Proof.
-  intros ov upf le al t o capB [H|(H1 & H2 & H3 & H4)].
-  - apply andb_prop in H. destruct H as [Hg Hs]. exact (ser_in_bounds_guarded (tree_cfg ov upf le al) t o capB Hg Hs).
-  - exact (proj1 (ser_in_bounds (tree_cfg ov upf le al) H1 t o capB H2 H3 H4)).
+  intros ov upf le al t o capB Hwf Ha.
+  exact (ser_in_bounds_checked (tree_cfg false ov upf le al) t o capB eq_refl (or_intror (fun e n => le_n n)) Hwf Ha).
 Qed.
-Print Assumptions c04_tree_ser_in_bounds.
+Print Assumptions c04_default_ser_in_bounds.
 
-(* ---- the outcome of a deserialization (value, consumed size, error) is that of the prior-free walker of Codec/Walker.v whenever
-   the length checks are those of the specification (DSDL capacity, or storage not reduced) ---- *)
-Theorem c04_des_obs_eq_walker : forall c, (forall e n, chk_cap c e n = n) -> forall t prior buf,
-  obs_res t (fst (walk_des_safe c t prior buf)) = walk_des ref_prims t buf.
-Proof. exact des_obs_eq_walker. Qed.
-Print Assumptions c04_des_obs_eq_walker.
+(* the build with the option: every buffer size, every storage capacity, up-front test compiled in or out (needs the guarded tree) *)
+Theorem c04_option_ser_in_bounds : forall ov upf le al t o capB,
+  forallb (acc_ok capB) (snd (walk_ser_safe (tree_cfg true ov upf le al) t o capB)) = true.
+Proof. intros ov upf le al t o capB. exact (ser_in_bounds_guarded (tree_cfg true ov upf le al) t o capB eq_refl eq_refl). Qed.
+Print Assumptions c04_option_ser_in_bounds.
 
-Theorem c04_des_prior_indep : forall c t prior1 prior2 buf,
-  obs_res t (fst (walk_des_safe c t prior1 buf)) = obs_res t (fst (walk_des_safe c t prior2 buf)).
-Proof. exact des_prior_indep. Qed.
-Print Assumptions c04_des_prior_indep.
-
-
-(* ---- totality: the walkers are total functions (structural recursion on the type and the element count, no fuel) and report
-   only documented errors ---- *)
-Theorem c04_des_total : forall c t prior buf,
-  (exists v k, fst (walk_des_safe c t prior buf) = Ok (v, k)) \/
-  (exists e, fst (walk_des_safe c t prior buf) = Err e /\ des_err_documented e = true).
-Proof. exact des_total. Qed.
-Print Assumptions c04_des_total.
-
-Theorem c04_ser_total : forall c t o capB,
+Theorem c04_ser_errors : forall c t o capB,
   (exists n, fst (walk_ser_safe c t o capB) = Ok n) \/
   (exists e, fst (walk_ser_safe c t o capB) = Err e /\ ser_err_documented e = true).
 Proof. exact ser_total. Qed.
-Print Assumptions c04_ser_total.
+Print Assumptions c04_ser_errors.
 
-(* ---- pointer formation past the end: the rendering before 9be3c74 (F-C-PTR-PAST-END, fixed), documentation only ---- *)
-Theorem c04_des_ptr_in_bounds_refuted :
+(* ================================================  log entries vs. the primitive models  ================================================ *)
+(* an in-bounds entry means the primitive that produced it is DEFINED in the partial semantics of CPrims / CppPrims (None = access
+   outside the allocation or bit loop out of fuel), for any value / source argument *)
+Theorem c04_checked_store_agrees : forall little buf (off w : nat) v, fits buf -> (N.of_nat off + N.of_nat w < two64)%N ->
+  match fst (w_checked (8 * length buf) off w) with
+  | Ok _ => exists r, set_uxx little buf (blen buf) (N.of_nat off) v (N.of_nat w) = Some (inl r)
+  | Err _ => set_uxx little buf (blen buf) (N.of_nat off) v (N.of_nat w) = Some (inr TooSmall)
+  end.
+Proof. exact checked_store_agrees. Qed.
+Print Assumptions c04_checked_store_agrees.
+
+Theorem c04_raw_stores_defined : forall buf src (off w : nat) v, fits buf -> fits src ->
+  acc_ok (length buf) (BW (off / 8) (bytes_hi (off + w))) = true ->
+  (acc_ok (length buf) (BW (off / 8) (off / 8 + 1)) = true -> wr buf (N.of_nat (off / 8)) v <> None) /\
+  (off mod 8 = 0 -> 1 <= w -> bytes_hi w <= length src -> memmove buf (N.of_nat (off / 8)) src 0 (N.of_nat (bytes_hi w)) <> None) /\
+  (w <= 8 * length src -> copy_bits buf (N.of_nat off) (N.of_nat w) src 0 <> None).
+Proof.
+  intros buf src off w v Hb Hs H. split; [|split].
+  - intros H1. apply byte_store_defined. exact H1.
+  - intros Ha Hw Hl. apply memmove_store_defined; assumption.
+  - intros Hl. apply copybits_store_defined; assumption.
+Qed.
+Print Assumptions c04_raw_stores_defined.
+
+Theorem c04_reads_defined :
+  (forall buf (i : nat), acc_ok (length buf) (BR i (i + 1)) = true -> rd buf (N.of_nat i) <> None) /\
+  (forall little (w : N) buf off len, (w mod 8 = 0)%N -> (w <= 64)%N -> bytes_ok buf -> fits buf -> (off < two64)%N ->
+     get_uxx little w buf (blen buf) off len <> None) /\
+  (forall (w : N) s len, (w mod 8 = 0)%N -> (w <= 64)%N -> span_ok s -> bytes_ok (sp_data s) -> cpp_get_uxx w s len <> None) /\
+  (forall output buf off (len : nat), fits buf -> fits output -> (off < two64)%N -> (N.of_nat len + 7 < two64)%N ->
+     bytes_hi len <= length output -> get_bits output buf (blen buf) off (N.of_nat len) <> None).
+Proof. exact (conj byte_load_defined (conj getter_defined (conj cpp_getter_defined getbits_defined))). Qed.
+Print Assumptions c04_reads_defined.
+
+(* ================================================  C++  ================================================ *)
+(* buffer side: the C++ deserializer is the same walker under cpp_cfg (saturating getters only, no fast paths, subspan / subspan_bytes) *)
+Theorem c04_cpp_des_in_bounds : forall capB t prior buf, wf_ty t = true -> length buf = 8 * capB ->
+  forallb (acc_ok capB) (snd (walk_des_safe (cpp_cfg tpl_cpp_subspan_clamped) t prior buf)) = true.
+Proof. exact (cpp_des_in_bounds tpl_cpp_subspan_clamped). Qed.
+Print Assumptions c04_cpp_des_in_bounds.
+
+Theorem c04_cpp_des_prior_indep : forall t prior1 prior2 buf,
+  obs_res t (fst (walk_des_safe (cpp_cfg tpl_cpp_subspan_clamped) t prior1 buf))
+  = obs_res t (fst (walk_des_safe (cpp_cfg tpl_cpp_subspan_clamped) t prior2 buf)).
+Proof. exact (des_prior_indep (cpp_cfg tpl_cpp_subspan_clamped)). Qed.
+Print Assumptions c04_cpp_des_prior_indep.
+
+(* any_bitspan::subspan() forms data_.data() + offset_bytes unclamped: F-CPP-PTR-PAST-END (current code) *)
+Theorem c04_cpp_des_ptr_in_bounds_refuted :
   exists t prior buf capB, wf_ty t = true /\ length buf = 8 * capB /\
-    forallb (ptr_ok capB) (snd (walk_des_safe old_ptr_cfg t prior buf)) = false.
-Proof. exact des_ptr_in_bounds_refuted. Qed.
-Print Assumptions c04_des_ptr_in_bounds_refuted.
+    forallb (ptr_ok capB) (snd (walk_des_safe (cpp_cfg false) t prior buf)) = false.
+Proof. exact cpp_des_ptr_in_bounds_refuted. Qed.
+Print Assumptions c04_cpp_des_ptr_in_bounds_refuted.
 
-(* ---- non-vacuity: a union inside a delimited struct decoded into two different prior objects, and serialized in bounds ---- *)
+(* ... and in bounds for every type and buffer as soon as subspan() clamps the pointer (the proposed patch) *)
+Theorem c04_cpp_des_ptr_in_bounds_partial : forall capB t prior buf, wf_ty t = true -> length buf = 8 * capB ->
+  forallb (ptr_ok capB) (snd (walk_des_safe (cpp_cfg true) t prior buf)) = true.
+Proof. exact cpp_des_ptr_in_bounds. Qed.
+Print Assumptions c04_cpp_des_ptr_in_bounds_partial.
+
+(* vector: EVERY path through the scanned statements of _deserialize_variable_length_array replaces the contents by the decoded
+   elements, whatever the vector held, allocates only after the length check and never pushes an empty temporary *)
+Theorem c04_vla_replaced_not_appended : forall p, In p tpl_cpp_vla_paths ->
+  forall (A : Type) (fresh : A) (prior decoded : list A),
+  vec A (run_vla A fresh p prior decoded) = decoded /\ vbad A (run_vla A fresh p prior decoded) = 0.
+Proof.
+  intros p Hin A fresh. apply vla_check_sound.
+  assert (H : forallb vla_check tpl_cpp_vla_paths = true) by reflexivity.
+  rewrite forallb_forall in H. apply H. exact Hin.
+Qed.
+Print Assumptions c04_vla_replaced_not_appended.
+
+Theorem c04_vla_checker_rejects :
+  vla_check [VSizeRead; VSizeCheck; VReserve; VLoop [LTmp; LDecodeTmp; LPushBack]] = false /\
+  vla_check [VSizeRead; VSizeCheck; VReserve; VLoop [LTmp; LDecodeTmp; LPushBack]; VClear] = false /\
+  vla_check [VSizeRead; VClear; VReserve; VSizeCheck; VLoop [LTmp; LDecodeTmp; LPushBack]] = false /\
+  exists prior decoded : list nat,
+    vec nat (run_vla nat 0 [VSizeRead; VSizeCheck; VReserve; VLoop [LTmp; LDecodeTmp; LPushBack]] prior decoded) <> decoded.
+Proof. exact vla_check_rejects. Qed.
+Print Assumptions c04_vla_checker_rejects.
+
+(* C++14 union emulation, about the scanned constructor / emplace / destroy_current: after VariantType() on raw storage (any previous
+   tag value) and ANY sequence of set_x / decode / assignment operations exactly the tagged alternative is live and NO destructor
+   call ever hit storage holding something else (ubad = 0, absolutely) *)
+Theorem c04_variant_exactly_one_live : forall np t0 ops,
+  let c0 := ctor tpl_union_dshape tpl_union_emplace tpl_union_ctor np t0 in
+  let c := run_ops tpl_union_dshape tpl_union_emplace np ops c0 in
+  one_live c /\ ubad c = 0 /\ uzd c = uzd c0.
+Proof. exact (fun np t0 ops => variant_exactly_one_live tpl_union_ctor np t0 ops eq_refl). Qed.
+Print Assumptions c04_variant_exactly_one_live.
+
+(* the only destructor call on never-constructed storage is the constructor's emplace<0>() -> destroy_current(): it runs once, on the
+   all-zero bytes of value-initialisation, and only if alternative 0 has a destructor *)
+Theorem c04_variant_ctor : forall np t0,
+  let c0 := ctor tpl_union_dshape tpl_union_emplace tpl_union_ctor np t0 in
+  one_live c0 /\ ubad c0 = 0 /\ uzd c0 <= 1 /\ (nth 0 np false = false -> uzd c0 = 0) /\ uzero c0 = false.
+Proof. exact (fun np t0 => variant_ctor_gen tpl_union_ctor np t0 eq_refl). Qed.
+Print Assumptions c04_variant_ctor.
+
+Theorem c04_variant_dtor_clean : forall np t0 ops,
+  let c := dtor tpl_union_dshape np (run_ops tpl_union_dshape tpl_union_emplace np ops (ctor tpl_union_dshape tpl_union_emplace tpl_union_ctor np t0)) in
+  ulive c = filter (fun j => negb (nth j np false)) [utag c] /\ ubad c = 0.
+Proof. exact (fun np t0 ops => variant_dtor_clean tpl_union_ctor np t0 ops eq_refl). Qed.
+Print Assumptions c04_variant_dtor_clean.
+
+(* proposed constructor (do_emplace<0>()): no destructor call on dead storage at all; and the zeroing is what makes the current one benign *)
+Theorem c04_variant_ctor_direct : forall np t0,
+  let c0 := ctor tpl_union_dshape tpl_union_emplace [CTag0; CZero; CDoEmplace0] np t0 in one_live c0 /\ ubad c0 = 0 /\ uzd c0 = 0.
+Proof. exact variant_ctor_direct. Qed.
+Print Assumptions c04_variant_ctor_direct.
+
+Theorem c04_variant_ctor_needs_zero : exists np t0, ubad (ctor tpl_union_dshape tpl_union_emplace [CTag0; CEmplace0] np t0) <> 0.
+Proof. exact variant_ctor_needs_zero. Qed.
+Print Assumptions c04_variant_ctor_needs_zero.
+
+(* ================================================  translated pieces, primitive level  ================================================ *)
+Theorem c04_bytes_hi_translated : forall n, Gen_C01.filter_bits2bytes_ceil (Z.of_nat n) = Some (Z.of_nat (bytes_hi n)).
+Proof. exact bytes_hi_translated. Qed.
+Print Assumptions c04_bytes_hi_translated.
+
+(* ---- non-vacuity ---- *)
 Definition ex_t : ty :=
   TComp false [TPrim PBool; TVar (TPrim (PU 7 true)) 3; TComp true [TPrim (PU 16 true); TVar (TPrim PBool) 9] None] (Some 128).
 Example c04_ex_des :
@@ -111,81 +242,7 @@ Example c04_ex_des :
         (CStruct [CPrim (VBool true); CVar 77 [CPrim (VInt 9)]; CUnion 5 (CVar 3 [])]) (bits_of_bytes [3; 170; 1; 2; 1; 0; 0]%N)))
   /\ exists v k, obs_res ex_t (fst (walk_des_safe (std_cfg true) ex_t dflt (bits_of_bytes [3; 170; 1; 2; 1; 0; 0]%N))) = Ok (v, k).
 Proof. split; [apply des_prior_indep | vm_compute; eexists; eexists; reflexivity]. Qed.
-(* the translated pieces the model is built from *)
-Theorem c04_bytes_hi_translated : forall n, Gen_C01.filter_bits2bytes_ceil (Z.of_nat n) = Some (Z.of_nat (bytes_hi n)).
-Proof. exact bytes_hi_translated. Qed.
-Print Assumptions c04_bytes_hi_translated.
-
-Example c04_ex_ser : cap_ok (std_cfg true) /\ wf_ty ex_t = true /\ align ex_t = 8 /\ bmax ex_t <= 8 * 8.
-Proof. split; [intros e n; apply le_n|]. vm_compute. repeat split; repeat constructor. Qed.
-
-(* ---- a serialization refused for lack of space wrote nothing ---- *)
-Theorem c04_too_small_no_write : forall c t o capB,
-  up_front c = true -> 8 * capB < bmax t -> walk_ser_safe c t o capB = (Err ETooSmall, []).
-Proof. exact too_small_no_write. Qed.
-Print Assumptions c04_too_small_no_write.
-
-(* ---- the documented capacity override breaks both (F-C-OVR-CAP) ---- *)
-Theorem c04_des_in_bounds_override_refuted :
-  exists c t prior buf capB, length buf = 8 * capB /\ wf_ty t = true /\
-    fst (walk_des_safe c t prior buf) <> Err EBadLen /\ forallb (acc_ok capB) (snd (walk_des_safe c t prior buf)) = false.
-Proof. exact des_in_bounds_override_refuted. Qed.
-Print Assumptions c04_des_in_bounds_override_refuted.
-
-Theorem c04_ser_in_bounds_override_refuted :
-  exists c t o capB, bmax t <= 8 * capB /\ wf_ty t = true /\
-    fst (walk_ser_safe c t o capB) <> Err EBadLen /\ forallb (acc_ok capB) (snd (walk_ser_safe c t o capB)) = false.
-Proof. exact ser_in_bounds_override_refuted. Qed.
-Print Assumptions c04_ser_in_bounds_override_refuted.
-
-Theorem c04_too_small_writes_without_check_refuted :
-  exists c t o capB, up_front c = false /\ 8 * capB < bmax t /\ forallb (acc_ok capB) (snd (walk_ser_safe c t o capB)) = false.
-Proof. exact too_small_writes_without_check_refuted. Qed.
-Print Assumptions c04_too_small_writes_without_check_refuted.
-
-(* ---- C++ vector: replaced, not appended to (stated about the template as it is now) ---- *)
-Theorem c04_vla_replaced_not_appended : forall (A : Type) (current decoded : list A),
-  cpp_vla_des tpl_cpp_vla_clear_first current decoded = decoded.
-Proof. exact @vla_replaced. Qed.
-Print Assumptions c04_vla_replaced_not_appended.
-
-Theorem c04_vla_append_refuted : exists current decoded : list nat, cpp_vla_des false current decoded <> decoded.
-Proof. exact vla_append_refuted. Qed.
-Print Assumptions c04_vla_append_refuted.
-
-(* ---- C++14 union emulation: exactly one live alternative after every history ---- *)
-Theorem c04_variant_exactly_one_live : forall np ops,
-  let c0 := ctor tpl_union_destroy_unfiltered tpl_union_emplace_destroy_first np in
-  let c := run_ops tpl_union_destroy_unfiltered tpl_union_emplace_destroy_first np ops c0 in
-  one_live c /\ ubad c = ubad c0.
-Proof. exact variant_exactly_one_live. Qed.
-Print Assumptions c04_variant_exactly_one_live.
-
-Theorem c04_variant_dtor_clean : forall np ops,
-  let c := dtor tpl_union_destroy_unfiltered np
-             (run_ops tpl_union_destroy_unfiltered tpl_union_emplace_destroy_first np ops
-                (ctor tpl_union_destroy_unfiltered tpl_union_emplace_destroy_first np)) in
-  ulive c = filter (fun j => negb (nth j np false)) [utag c].
-Proof. exact variant_dtor_clean. Qed.
-Print Assumptions c04_variant_dtor_clean.
-
-Theorem c04_variant_filtered_refuted :
-  exists np ops, let c := run_ops false true np ops (ctor false true np) in ubad c <> 0 \/ ~ one_live c.
-Proof. exact variant_filtered_refuted. Qed.
-Print Assumptions c04_variant_filtered_refuted.
-
-Theorem c04_variant_ctor_destroys_dead_refuted : exists np, ubad (ctor true true np) <> 0.
-Proof. exact variant_ctor_destroys_dead_refuted. Qed.
-Print Assumptions c04_variant_ctor_destroys_dead_refuted.
-
-Theorem c04_variant_ctor_partial : forall np, nth 0 np false = false -> ubad (ctor true true np) = 0.
-Proof. exact variant_ctor_partial. Qed.
-Print Assumptions c04_variant_ctor_partial.
-
-(* ---- primitive level (C14): inside the footprint the log entries describe, nunavutCopyBits performs no out-of-range access and its
-   bit loop terminates within fuel = length_bits (None = out-of-range access or fuel exhausted) ---- *)
-Theorem c04_copy_bits_total : forall dst doff len src soff,
-  (doff + len <= 8 * blen dst -> soff + len <= 8 * blen src -> 8 * blen dst < two64 -> 8 * blen src < two64 ->
-   exists r, copy_bits dst doff len src soff = Some r /\ copied dst src r doff soff len)%N.
-Proof. exact copy_bits_exact. Qed.
-Print Assumptions c04_copy_bits_total.
+Example c04_ex_ser : wf_ty ex_t = true /\ align ex_t = 8 /\ bmax ex_t <= 8 * 8 /\
+  exists n, fst (walk_ser_safe (std_cfg true) ex_t (CStruct [CPrim (VBool true); CVar 2 [CPrim (VInt 1); CPrim (VInt 2); CPrim (VInt 3)];
+                                                              CUnion 1 (CVar 3 [CPrim (VBool true)])]) 8) = Ok n.
+Proof. vm_compute. repeat split; repeat constructor. eexists; reflexivity. Qed.
